@@ -22,7 +22,7 @@ MONITORS = {
     'c11': Mon2.C11Retention, 'c31': Mon2.C31Sequential,
     'rsnap': Mon2.RestartSnap, 'c06': Mon2.C06Hold, 'c08': Mon2.C08Flows,
     'c45': Mon2.C45AbsTriggers, 'c25': Mon2.C25DataStore,
-    'c27': Mon2.C27Reload,
+    'c27': Mon2.C27Reload, 'c33': Mon2.C33Xtriggers,
 }
 
 
@@ -142,6 +142,9 @@ def build_case(rng, gt, plan_class='all-complete', hostile=0.5,
         'policy': gen_policy(rng, hostile),
         'plan_class': plan_class,
     }
+    if gt.get('xtriggers'):
+        case['xtrig_plan'] = {label: x['need_calls']
+                              for label, x in gt['xtriggers'].items()}
     if plan_class == 'all-complete':
         make_complete(case)
     if extra:
